@@ -351,6 +351,13 @@ impl Scenario for C09 {
         }
         let n = kind.from_rng_len();
         let mut src = gen_source(rng, kind);
+        if n <= 64 && rng.chance(1, 5) {
+            // a block that is zero except for ONE byte (every position, the last one included): the most nearly
+            // zero blocks there are - a zero test that misses a byte takes them for zero
+            let mut b = vec![0u8; n];
+            b[rng.below(n as u64) as usize] = if rng.chance(1, 2) { 1 << rng.below(8) } else { rng.range(1, 255) as u8 };
+            src.prefix = b;
+        }
         // leading all-zero blocks: XorShiftRng redraws (one more call per block)
         if rng.chance(1, 3) {
             let k = *rng.pick(&[1usize, 1, 2, 2, 3, 4, 7, 8, 9]);
